@@ -112,9 +112,26 @@ LOOP_TYS = [
 ]
 
 
-def real_loop(A, R, S) -> dict:
-    import spox.opset.ai.onnx.v17 as op
+# opset modules whose Loop carries the inference patch on the pinned tree (v18 re-exports v17's class,
+# v20 re-exports v19's); refined at run time from the override table when the class owner is visible
+LOOP_PATCHED = {"v17": True, "v18": True, "v19": False, "v20": False, "v21": False}
 
+
+def loop_patched_now(rows) -> dict:
+    """module -> does its Loop class (wherever it is defined) override infer_output_types?"""
+    out = dict(LOOP_PATCHED)
+    owners = {r["module"] for r in rows if r["op"] == "Loop"}
+    for m in out:
+        try:
+            owner = P.opset_module(m)._Loop.__module__.rsplit(".", 1)[-1]
+            out[m] = f"ai.onnx.{owner}" in owners
+        except Exception:  # noqa: BLE001
+            pass
+    return out
+
+
+def real_loop(A, R, S, module="v17") -> dict:
+    op = P.opset_module(module)
     try:
         init = [L.mk_var(a) for a in A]
         res = [L.mk_var(r) for r in R]
@@ -128,8 +145,9 @@ def real_loop(A, R, S) -> dict:
         return {"err": type(e).__name__}
 
 
-def corr_loop(ck: core.Check, drv) -> None:
+def corr_loop(ck: core.Check, drv, rows=None) -> None:
     rng = ck.rng
+    patched_map = loop_patched_now(rows) if rows else LOOP_PATCHED
     cases = []
     typed = [t for t in LOOP_TYS if t is not None]
     for a in typed:  # one carried value: all pairs
@@ -143,20 +161,22 @@ def corr_loop(ck: core.Check, drv) -> None:
         R = [rng.choice([a, a, rng.choice(typed)]) for a in A]
         S = [rng.choice(typed) for _ in range(rng.randrange(0, 3))]
         cases.append((A, R, S))
-    model = drv.ask_many("C06", [{"k": "loop", "A": A, "R": R, "S": S} for A, R, S in cases])
     mism = 0
-    for (A, R, S), m in zip(cases, model):
-        real = real_loop(A, R, S)
-        ck.count(("loop", json.dumps([A, R, S])))
-        if m != real:
-            mism += 1
-            if mism <= 5:
-                ck.broken(
-                    "correspondence",
-                    "inferLoop model-vs-op.loop",
-                    f"A={json.dumps(A)} R={json.dumps(R)} S={json.dumps(S)} model={json.dumps(m)} real={json.dumps(real)}",
-                )
-    ck.cov["loop_correspondence"] = {"cases": len(cases), "mismatches": mism}
+    for module, patched in patched_map.items():
+        sub = cases if module == "v17" or ck.thorough else cases[: len(typed) * len(LOOP_TYS) + len(LOOP_TYS)]
+        model = drv.ask_many("C06", [{"k": "loop", "A": A, "R": R, "S": S, "onnx": not patched} for A, R, S in sub])
+        for (A, R, S), m in zip(sub, model):
+            real = real_loop(A, R, S, module)
+            ck.count(("loop", module, json.dumps([A, R, S])))
+            if m != real:
+                mism += 1
+                if mism <= 5:
+                    ck.broken(
+                        "correspondence",
+                        f"inferLoop model-vs-op.loop ({module})",
+                        f"A={json.dumps(A)} R={json.dumps(R)} S={json.dumps(S)} model={json.dumps(m)} real={json.dumps(real)}",
+                    )
+    ck.cov["loop_correspondence"] = {"cases_v17": len(cases), "modules": list(LOOP_PATCHED), "mismatches": mism}
 
 
 def corr_looprun(ck: core.Check, drv) -> None:
@@ -462,6 +482,53 @@ def corr_inlinearg(ck: core.Check, drv) -> None:
     ck.cov["inlinearg_correspondence"] = {"cases": len(pairs), "mismatches": mism}
 
 
+def oracle_defaults(ck: core.Check) -> dict:
+    """Arguments with a default value (overridable initializer) feeding value-dependent shape
+    inference (Reshape, Range, Expand, Tile, ConstantOfShape, OneHot depth); run once with the default
+    and once with a binding that overrides it."""
+    stats = {"programs": 0, "rejected": 0, "runs": 0, "runs_refused_by_runtime": 0, "vars_checked": 0, "errors": []}
+    for dc in P.DEFAULT_CASES:
+        case = dict(dc, kind="default-arg")
+        st = P.run_default_case(case, ck.rng, SIZES, max_inst=1)
+        stats["programs"] += 1
+        if st.get("rejected"):
+            stats["rejected"] += 1
+            stats["errors"].append(st.get("error", "")[:120])
+            continue
+        stats["runs"] += st["runs"]
+        stats["runs_refused_by_runtime"] += st["refused"]
+        stats["vars_checked"] += st["checked"]
+        ck.count(("default-arg", json.dumps(dc)) if st["checked"] else None)
+        report(ck, st["fails"], case)
+    if stats["vars_checked"] == 0:
+        ck.broken("correspondence", "defaulted arguments not observable", str(stats["errors"][:2]))
+    return stats
+
+
+def oracle_loop_families(ck: core.Check) -> dict:
+    """The Loop families (zero / one / many trips; identity, doubling, narrowing, feedback, fixed-shape
+    bodies; rank-unknown initial value narrowed by the body) built with EVERY opset module."""
+    stats = {"programs": 0, "rejected": 0, "runs": 0, "runs_refused_by_runtime": 0, "vars_checked": 0, "per_module": {}}
+    for mod in P.OPSET_MODULES:
+        for lc in P.LOOP_FAMILY:
+            case = dict(lc, module=mod, kind="loop-family")
+            st = P.run_loop_family(case, ck.rng, SIZES, max_inst=ck.pick(2, 4))
+            stats["programs"] += 1
+            if st.get("rejected"):
+                stats["rejected"] += 1
+                continue
+            stats["runs"] += st["runs"]
+            stats["runs_refused_by_runtime"] += st["refused"]
+            stats["vars_checked"] += st["checked"]
+            stats["per_module"][mod] = stats["per_module"].get(mod, 0) + st["checked"]
+            ck.count(("loop-family", json.dumps(case)) if st["checked"] else None)
+            report(ck, st["fails"], case)
+    for mod in P.OPSET_MODULES:
+        if not stats["per_module"].get(mod):
+            ck.broken("correspondence", f"Loop programs of opset module {mod} not observable", "")
+    return stats
+
+
 def oracle_inline_forms(ck: core.Check) -> dict:
     """`inline(m)(…)` called positionally / by keyword / mixed, with exact, compatible-but-weaker and
     incompatible argument types. Incompatible ones must be refused (TypeError) at the call; whenever
@@ -610,7 +677,7 @@ def run(ck: core.Check):
     if drv is not None:
         _facet(ck, "infer correspondence", corr_infer, ck, drv)
         ck.log("infer correspondence done")
-        _facet(ck, "Loop correspondence", corr_loop, ck, drv)
+        _facet(ck, "Loop correspondence", corr_loop, ck, drv, tab["rows"] if tab else None)
         _facet(ck, "runtime-spec correspondence", corr_rt, ck, drv)
         _facet(ck, "loopRun correspondence", corr_looprun, ck, drv)
         ck.log("runtime-spec correspondence done")
@@ -622,6 +689,8 @@ def run(ck: core.Check):
     ck.cov["oracle_single"] = _facet(ck, "single-operator oracle", oracle_single, ck)
     ck.log("single-operator oracle done")
     ck.cov["oracle_scan"] = _facet(ck, "Scan oracle", oracle_scan, ck)
+    ck.cov["oracle_defaults"] = _facet(ck, "defaulted-argument oracle", oracle_defaults, ck)
+    ck.cov["oracle_loop_families"] = _facet(ck, "Loop families oracle", oracle_loop_families, ck)
     ck.cov["oracle_inline_forms"] = _facet(ck, "inline call-form oracle", oracle_inline_forms, ck)
     ck.cov["oracle_attr_functions"] = _facet(ck, "attribute-function oracle", oracle_attr_functions, ck)
     ck.cov["oracle_function_conflicts"] = _facet(ck, "function-conflict oracle", oracle_function_conflicts, ck)
@@ -662,6 +731,10 @@ def replay(ck: core.Check, doc) -> bool:
         st = P.run_single(case, rng, SIZES, max_inst=8, extra_feeds=extra)
     elif case.get("kind") == "program":
         st = P.run_program(case, SIZES, max_inst=6, extra_feeds=extra)
+    elif case.get("kind") == "default-arg":
+        st = P.run_default_case(case, rng, SIZES, max_inst=1, extra_feeds=extra)
+    elif case.get("kind") == "loop-family":
+        st = P.run_loop_family(case, rng, SIZES, max_inst=4, extra_feeds=extra)
     elif case.get("kind") == "inline-form":
         st = P.run_inline_case(case, rng, SIZES, max_inst=6, extra_feeds=extra)
     elif case.get("kind") == "attr-function":
